@@ -51,4 +51,11 @@ VARIANTS = [
       "        self.coords_gauss, self.weights_gauss = legendre.leggauss(int((self.p + 1) / 2))\n", "C10.D9", file="Grid.py"),
     V("C10-n30-basis-rule-floor-division", "neutral", "        self.coords_gauss, self.weights_gauss = legendre.leggauss(int(self.p / 2) + 1)\n",
       "        self.coords_gauss, self.weights_gauss = legendre.leggauss(self.p // 2 + 1)\n", file="Grid.py"),
+    # D10: get_integral integrates what __call__ evaluates
+    V("C10-b32-modified-spline-integrates-unmodified-component", "break", "                f_evals = np.array([self(coord) for coord in coords])\n",
+      "                f_evals = np.array([self.spline(coord) for coord in coords])\n", "C10.D10", nth=2),
+    V("C10-b33-restricted-lagrange-integrates-parent-polynomial", "break", "        f_evals = np.array([self(coord) for coord in coords])\n",
+      "        f_evals = np.array([LagrangeBasis.__call__(self, coord) for coord in coords])\n", "C10.D10", nth=2),
+    V("C10-n32-plain-spline-integrates-its-delegate", "neutral", "                f_evals = np.array([self(coord) for coord in coords])\n",
+      "                f_evals = np.array([self.spline(coord) for coord in coords])\n", nth=1),
 ]
